@@ -135,6 +135,7 @@ type world struct {
 	rawLn    *sysx.RawTCPListener
 
 	checkContent bool
+	writeAfterError bool // error chains keep writing on a connection whose writes fail
 	// ledger extras (C03)
 	timers       []*wtimer
 	postsPending int
@@ -429,7 +430,7 @@ func (w *world) canStart(o *wobj, kind string) bool {
 	case "read", "readAll":
 		return o.kind.stream() && o.canRead && o.rd == nil
 	case "write", "writeAll":
-		return o.kind.stream() && o.canWrite && o.wr == nil && !o.wrErrored
+		return o.kind.stream() && o.canWrite && o.wr == nil && (!o.wrErrored || w.writeAfterError)
 	case "accept":
 		return o.kind == kListener && o.rd == nil
 	case "readFrom":
